@@ -41,7 +41,7 @@ fn finish<W: World>(w: W, trace: Trace, violations: Vec<Violation>, prop: &str) 
             if is_tx(s) && i > 0 && is_tx(&st[i - 1]) {
                 *sched.entry("txs_sharing_a_block_with_the_previous_tx").or_insert(0) += 1;
             }
-            if let Step::Block { dh, dt } = s {
+            if let Step::Block { dh, dt, .. } = s {
                 *sched.entry("block_cuts").or_insert(0) += 1;
                 if *dh >= 100 || *dt >= 100_000 {
                     *sched.entry("large_clock_jumps").or_insert(0) += 1;
@@ -248,12 +248,12 @@ fn simpler_steps(s: &Step) -> Vec<Step> {
             });
         }
     }
-    if let Step::Block { dh, dt } = s {
+    if let Step::Block { dh, dt, .. } = s {
         if *dh > 1 {
-            out.push(Step::Block { dh: 1, dt: *dt });
+            out.push(Step::Block { dh: 1, dt: *dt, dn: 0 });
         }
         if *dt > 0 && *dh > 0 {
-            out.push(Step::Block { dh: *dh, dt: 0 });
+            out.push(Step::Block { dh: *dh, dt: 0, dn: 0 });
         }
     }
     if let Step::Ibc { msg, fault: Some(_) } = s {
